@@ -142,7 +142,7 @@ def parse_reg(s):
     if not body:
         return reg
     for it in body.split(";"):
-        p = it.split(":")
+        p = it.rsplit(":", 3)
         if len(p) != 4:
             return None
         try:
@@ -209,7 +209,7 @@ def spec_api(reg, trigs, now, toks):
     raise ValueError("bad op " + " ".join(toks))
 
 
-def spec_fetch(reg, trigs, now, thr, hint):
+def spec_fetch(reg, trigs, now, thr, hint, push_fails=False):
     """Fetch specification (C04 text): pop a minimum (the hinted key if it is one), classify, re-base or keep.
     Returns the expected observation "<ret> [calls] <M..|-> " (without the token field) ; mutates reg/trigs."""
     if not reg:
@@ -224,18 +224,22 @@ def spec_fetch(reg, trigs, now, thr, hint):
     susp, prio, tid = reg[k]
     if susp:
         reg[k] = [1, MAXI, tid]
+        if push_fails:
+            del reg[k]      # a popped job whose push-back fails is lost (never duplicated)
         return "%s:%d:0 [] -" % (k, prio)
     if prio < now - thr:
         res = trigs[tid].fire(now)
-        if res.startswith("E"):
+        if res.startswith("E") or push_fails:
             del reg[k]
         else:
             reg[k] = [0, int(res), tid]
         return "%s:%d:0 [%d:%d:%s] M%d" % (k, prio, tid, now, res, prio)
     if prio > now:
+        if push_fails:
+            del reg[k]
         return "%s:%d:0 [] -" % (k, prio)
     res = trigs[tid].fire(prio)
-    if res.startswith("E"):
+    if res.startswith("E") or push_fails:
         del reg[k]
     else:
         reg[k] = [0, int(res), tid]
@@ -370,7 +374,7 @@ def run_steps(ctx, binp, ml, profile, seed, only=None, timeout=900):
             oreg = parse_reg(oparts[1]) if len(oparts) == 2 else None
             # --- model ---
             if mline is not None and o != mline:
-                ml2 = norm_fetch(o, mline) if t[0] == "F" else mline
+                ml2 = norm_fetch(o, mline) if t[0] in ("F", "FX") else mline
                 if o != ml2 and not bad_seq:
                     keep(res["mismatches"], {"case": context(), "observed": o, "model": mline})
             # --- oracle ---
@@ -383,11 +387,11 @@ def run_steps(ctx, binp, ml, profile, seed, only=None, timeout=900):
                 cls = r.split(":")[0]
                 res["result_classes"][cls] = res["result_classes"].get(cls, 0) + 1
                 want = r + " [" + ",".join(calls) + "] | " + reg_str(reg)
-            elif t[0] == "F":
+            elif t[0] in ("F", "FX"):
                 res["fetches"] += 1
                 hint = None if t[3] == "-" else t[3] + "/" + t[4]
                 susp_before = {k for k, v in reg.items() if v[0]}
-                w = spec_fetch(reg, trigs, int(t[1]), int(t[2]), hint)
+                w = spec_fetch(reg, trigs, int(t[1]), int(t[2]), hint, push_fails=(t[0] == "FX"))
                 if w is None:
                     res["no_verdict"] += 1
                 else:
@@ -409,9 +413,24 @@ def run_steps(ctx, binp, ml, profile, seed, only=None, timeout=900):
             if want is not None and got != want and not bad_seq:
                 fl = {"case": context(), "observed": o, "specification": want,
                       "why": ["the implementation's answer differs from the property's specification of this step"]}
-                if t[0] == "F" and want.split(":")[0] in susp_before:
+                if t[0] in ("F", "FX") and want.split(" ")[0].rsplit(":", 2)[0] in susp_before:
                     fl["popped_suspended"] = True
-                keep(res["failures"], fl)
+                if t[0] == "FX":
+                    # a failing push-back: what the property forbids is that the fire time just handed out as valid is
+                    # still in the queue (it would be handed out again); other ways of coping with the failure are not judged here
+                    ret = oparts[0].split(" ")[0]
+                    rk = ret.rsplit(":", 2)
+                    dup = (len(rk) == 3 and rk[2] == "1" and oreg is not None and rk[0] in oreg
+                           and oreg[rk[0]][1] == int(rk[1]) and not oreg[rk[0]][0])
+                    if dup:
+                        fl["why"] = ["the reschedule Push failed; the job was returned for execution (valid) and its entry is still queued with "
+                                     "the same fire time %s: the next tick executes it again for the same fire time" % rk[1]]
+                        fl["duplicated_fire_time"] = True
+                        keep(res["failures"], fl)
+                    else:
+                        res["pushfail_other"] = res.get("pushfail_other", 0) + 1
+                else:
+                    keep(res["failures"], fl)
                 bad_seq = True  # later steps of the sequence follow from this one
             # resynchronise the oracle with what the implementation holds now
             if oreg is not None:
@@ -453,6 +472,8 @@ def tags_of(f):
     op, wp = o.split(" | "), w.split(" | ")
     ot, wt = op[0].split(" "), wp[0].split(" ")
     tg = set()
+    if f.get("duplicated_fire_time"):
+        return {"C03"}
     if o.startswith("BLOCKED"):
         return {"C04"}
     if len(ot) < 4:
@@ -507,6 +528,8 @@ def free_oracles(run):
     counts = {"execs": 0, "trigger_calls": 0, "on_time_calls": 0, "misfire_rebases": 0, "api_rebases": 0,
               "misfires_received": 0, "api_calls": 0, "foreign_writes": 0, "pause_windows": 0, "delete_windows": 0}
     by_key = {}
+    missing_total, missing_keys = 0, []
+    stop_mono = run.get("stop_mono") or float("inf")
     for e in evs:
         if e["kind"] in ("trig", "exec", "foreign", "misfire") and e.get("key"):
             by_key.setdefault(e["key"], []).append(e)
@@ -560,6 +583,20 @@ def free_oracles(run):
                         "why": "re-based on the clock (prev=%d) although the pending fire time %s was not more than the threshold (%d) late: drift" % (c["prev"], last, thr)})
         counts["on_time_calls"] += len(on_time)
         counts["misfire_rebases"] += rebases
+        # C03: one fire time is consumed (handed back to its trigger as the scheduled time) at most once
+        seen_prev = {}
+        for c in on_time:
+            if c["prev"] in seen_prev:
+                f03.append({"key": key, "first_call": seen_prev[c["prev"]], "second_call": c,
+                            "why": "fire time %d of the job was dequeued as due twice (two on-time trigger calls with the same prev): "
+                                   "two executions for one fire time" % c["prev"]})
+                break
+            seen_prev[c["prev"]] = c
+        # (after Stop has been called the loop may still dequeue fire times whose hand-off the shutdown aborts: not counted)
+        n_before = len([c for c in on_time if c["mono"] < stop_mono])
+        missing_total += max(0, n_before - len(execs))
+        if n_before - len(execs) > 0:
+            missing_keys.append((key, n_before, len(execs)))
         # C03: an injection from executions to earlier on-time dequeues that were due
         ot = sorted(on_time, key=lambda c: c["mono"])
         for rank, e in enumerate(execs, 1):
@@ -591,6 +628,14 @@ def free_oracles(run):
             if len(ex_in) > max(pending, 0):
                 f08.append({"key": key, "api": a, "executions_after": len(ex_in), "dequeued_before": pending,
                             "why": "%d executions started after %s returned Ok although only %d had been dequeued before" % (len(ex_in), a["op"], pending)})
+    # C04: at quiescence (Stop + Wait returned) every fire time dequeued as due before Stop was called has been executed;
+    # the one hand-off a worker-pool loop is waiting with may be aborted by the shutdown, once per scheduler
+    allowed = run.get("schedulers", 1) if run.get("mode") == "pool" else 0
+    counts["dequeued_due_not_executed"] = missing_total
+    if run.get("wait_ok", True) and missing_total > allowed:
+        f04.append({"keys": missing_keys[:6], "not_executed": missing_total, "allowed_by_shutdown": allowed,
+                    "why": "%d fire times were dequeued as due (their trigger was asked for the next one) but never executed nor misfired "
+                           "(at most %d hand-offs can be aborted by the shutdown in mode %s)" % (missing_total, allowed, run.get("mode"))})
     lock = []
     if run.get("lock_violations"):
         lock.append({"lock_violations": run["lock_violations"], "first": run.get("first_violation"),
@@ -740,6 +785,57 @@ def free_phase(prop, binp, configs, millis, seeds):
     return failures, runs, total
 
 
+GATES = {
+    "C04": [["pool", "none", "3"], ["pool", "none", "1"]],
+    "C08": [["pool", "pause", "3"], ["pool", "delete", "3"], ["pool", "clear", "2"],
+            ["window", "clear"], ["window", "pause"], ["window", "delete"]],
+    "C03": [],
+}
+
+
+def run_gate(binp, args, timeout=180):
+    rc, out = vlib.run([binp, "gate"] + args, timeout=timeout)
+    if rc != 0:
+        raise RuntimeError("schedh gate failed (%s): %s" % (rc, out[-2000:]))
+    return json.loads([l for l in out.splitlines() if l.startswith("{")][-1])
+
+
+def gate_phase(prop, binp, repeat=1):
+    failures, runs = [], []
+    for args in GATES.get(prop, []):
+        for _ in range(repeat):
+            g = run_gate(binp, args)
+            evs = g.pop("events", [])
+            runs.append(dict(g))
+            why = []
+            if g["scenario"] == "pool" and g["workers_busy"]:
+                if prop == "C08" and g["op_result"] == "ok":
+                    if g["starts_after"] > 1:
+                        why.append("%d executions of the job started after %s returned Ok while all %d workers were busy: more than the one "
+                                   "execution the loop had already dequeued" % (g["starts_after"], g["op"], g["workers"]))
+                    if g["trigger_calls_after"] > 0:
+                        why.append("the job's trigger was asked %d times after %s returned Ok" % (g["trigger_calls_after"], g["op"]))
+                if prop == "C04" and g["op"] == "none":
+                    if g["on_time_calls"] - g["executions"] > 1:
+                        why.append("%d fire times were dequeued as due while the worker pool was saturated but only %d executions happened: "
+                                   "fire times dropped without execution or misfire" % (g["on_time_calls"], g["executions"]))
+                    if g["once_executions"] != 1 or g["once_listed"]:
+                        why.append("a run-once job that became due while the pool was saturated ran %d times (listed afterwards: %s); "
+                                   "expected exactly once, then gone" % (g["once_executions"], g["once_listed"]))
+            if g["scenario"] == "window" and prop == "C08" and g["entered_window"] and g["op_result"] == "ok":
+                if g["trigger_calls_after"] > 0:
+                    why.append("%s returned Ok while fetchAndReschedule was between Pop and Push (op waited for the step: %s); afterwards the "
+                               "job's trigger was asked %d more times" % (g["op"], g["op_waited_for_window"], g["trigger_calls_after"]))
+                if g["op"] in ("clear", "delete") and g["listed_after"]:
+                    why.append("the job is listed again after %s returned Ok" % g["op"])
+                if g["starts_after"] > 1:
+                    why.append("%d executions started after %s returned Ok" % (g["starts_after"], g["op"]))
+            if why:
+                failures.append({"case": {"kind": "gate", "args": args}, "observed": g, "events_tail": evs[-12:], "why": why})
+                break
+    return failures, runs
+
+
 def dynamic_check(ctx, prop, seed_offset, configs, rule, assumptions, partial_runtime):
     res, broken = proof_step(ctx, prop)
     binp = build_all()
@@ -760,9 +856,14 @@ def dynamic_check(ctx, prop, seed_offset, configs, rule, assumptions, partial_ru
                              s["first_violation"], s["lock_violations"], s["queue_calls_checked"])]})
     ff, runs, total = free_phase(prop, binp, configs, 500 if quick else 3000, [ctx.seed] if quick else [ctx.seed, ctx.seed + 1, ctx.seed + 2])
     failures += ff
+    gf, gruns = gate_phase(prop, binp, 1 if quick else 3)
+    failures += gf
 
     def search():
         found = []
+        g2, _ = gate_phase(prop, binp, 3)
+        if g2:
+            return g2[:3]
         for k in range(1, 3):
             r = run_steps(ctx, binp, None, "fetch-quick", ctx.seed + seed_offset + 5000 * k, timeout=3000)
             found += [f for f in r["failures"] if prop in tags_of(f)]
@@ -788,6 +889,7 @@ def dynamic_check(ctx, prop, seed_offset, configs, rule, assumptions, partial_ru
         "oracle_failures": len(failures),
         "free_runs": runs,
         "free_run_totals": total,
+        "gate_scenarios": gruns,
         "lock_discipline": {"queue_calls_checked": s["queue_calls_checked"], "violations": s["lock_violations"]},
         "partial_runtime": partial_runtime,
     })
@@ -798,6 +900,24 @@ def dynamic_check(ctx, prop, seed_offset, configs, rule, assumptions, partial_ru
 def dynamic_replay(ctx, prop, path):
     obj = json.load(open(path))
     case = obj.get("case", {})
+    if case.get("kind") == "gate":
+        binp = build_all()
+        bad = []
+        for _ in range(3):
+            g = run_gate(binp, case["args"])
+            g.pop("events", None)
+            bad.append(g)
+        saved = GATES.get(prop)
+        GATES[prop] = [case["args"]]
+        try:
+            fs, _ = gate_phase(prop, binp, 3)
+        finally:
+            GATES[prop] = saved
+        print(json.dumps({"reruns": bad, "failures": [f["why"] for f in fs]}))
+        if fs:
+            vlib.report_violation(ctx, obj)
+            return 1
+        return 0
     if case.get("kind") == "free":
         binp = build_all()
         key = {"C03": "c03", "C04": "c04", "C08": "c08"}[prop]
